@@ -204,10 +204,22 @@ def _check_bath(case, ctx):
     if not ok:
         return
     w, J, w2, Cw = r
-    # oddness on the symmetric part of the axis: find partner of each frequency
+    # oddness on the symmetric part of the axis: find partner of each frequency.  The frequency axis is symmetric only
+    # up to rounding (w[k] + w[kk] ~ 1e-13), and an underdamped mode whose damping is far below the grid spacing makes
+    # J change by 1e5 of itself per unit frequency: the comparison allows for what the closed-form J changes between
+    # w[k] and -w[kk] (this only measures the sensitivity; the values compared are the library's)
     n = len(w)
     sc = max(1e-12, float(numpy.max(numpy.abs(J))))
-    worst = 0.0
+    lam_i = float(case["reorg"]) * orc.CM2INT
+    if case["ftype"] == "OverdampedBrownian":
+        def Jo(x):
+            return orc.ob_spectral_density(x, lam_i, float(case["cortime"]))
+    else:
+        w0_i = float(case["freq"]) * orc.CM2INT
+        g_i = (1.0 / float(case["cortime"])) * orc.CM2INT      # given inside the 1/cm context: converted as an energy
+        def Jo(x):
+            return 2.0 * lam_i * g_i * w0_i ** 2 * x / ((x * x - w0_i ** 2) ** 2 + x * x * g_i ** 2)
+    worst = 0.0          # in units of the allowed deviation
     worst_db = 0.0       # in units of the allowed deviation
     pairs = 0
     for k in range(n):
@@ -215,15 +227,16 @@ def _check_bath(case, ctx):
         if abs(w[kk] + w[k]) > 1e-9 * max(1.0, abs(w[k])):
             continue
         pairs += 1
-        worst = max(worst, abs(J[k] + J[kk]))
+        sens = abs(Jo(w[k]) - Jo(-w[kk]))
+        worst = max(worst, abs(J[k] + J[kk]) / (1e-8 * sc + 4.0 * sens))
         x = w2[k] / kT
         if 0 < x < 30 and abs(Cw[k]) > 1e-9 * float(numpy.max(numpy.abs(Cw))):
             # C(-w) = (1 + coth(-x/2)) J(-w) is a difference of nearly equal numbers: its relative rounding error is
             # about eps*exp(x); the paired frequencies agree to 1e-9 relative
-            allowed = 1e-8 + 2e-15 * math.exp(x)
+            allowed = 1e-8 + 2e-15 * math.exp(x) + 4.0 * sens / max(abs(Jo(w[k])), 1e-300)
             worst_db = max(worst_db, abs(Cw[kk] / Cw[k] / math.exp(-x) - 1.0) / allowed)
     if pairs < n // 2:
         ctx.fail("spectral-density/axis-not-symmetric", case["ftype"], pairs=pairs, n=n)
         return
-    ctx.bound("spectral-density/odd", worst, 1e-8 * sc, where=case["ftype"])
+    ctx.bound("spectral-density/odd", worst, 1.0, where=case["ftype"])
     ctx.bound("ft-correlation-function/detailed-balance", worst_db, 1.0, where=case["ftype"], T=T)
